@@ -151,29 +151,8 @@ def run(check, repo: Repo) -> None:
     check.decide(ok, "C10-R1", "tomography object: positivity and shrinkage both end in a lower bound at 0", "", tmod.line(th),
                  fail_detail="the tomography hard constraints can return negative values under positivity")
 
-    # ---- R2 Gram–Schmidt structure ------------------------------------------------------------------------------
-    pmod, gs = repo.func(f"{PM}:ProbeConstraints._probe_orthogonalization_constraint")
-    g = GramSchmidt(gs)  # role-based: basis list, running vector, norms and order tensors are found by definition, not by name
-    titles = {
-        "outer": ("Gram–Schmidt: the outer loop visits every mode of the input stack", "the outer loop does not run over all modes"),
-        "projection": ("Gram–Schmidt: projection = ⟨basis_j, v⟩·basis_j with the conjugate on the BASIS vector",
-                       "the inner product is not ⟨basis_j, v⟩ times the same basis vector, so modes are not mutually orthogonal for complex probes"),
-        "subtract": ("Gram–Schmidt: projections are subtracted from the running vector (modified GS)", "the running vector is not updated as v − projection"),
-        "all_previous": ("Gram–Schmidt: each vector is orthogonalised against ALL previously accepted modes", "the inner loop does not run over range(len(basis))"),
-        "normalise": ("Gram–Schmidt: the residual is normalised by its own norm before it joins the basis", "the accepted mode is not v / ‖v‖"),
-        "norms": ("Gram–Schmidt: the original per-mode norms are taken from the input stack over the last two axes", "no sqrt(Σ|input|², dim=(-2,-1)) is kept"),
-        "aligned": ("Gram–Schmidt: the original norm of the SAME index is restored (norms and stack are in one index order when multiplied)",
-                    "restoring the norms after the sort pairs mode shapes with the wrong intensities — the multiset survives but the per-mode intensity does not"),
-        "restored": ("Gram–Schmidt: the returned stack carries the restored norms", "the per-mode intensities of the input are lost"),
-        "sorted": ("Gram–Schmidt returns the stack gathered by the sort order", "the result is not sorted"),
-        "key": ("Gram–Schmidt: the sort key is the restored per-mode intensity (or the original norms), descending",
-                "sorting by another key (or ascending) leaves the modes out of descending-intensity order"),
-        "one_order": ("Gram–Schmidt: real and imaginary parts are gathered from one stack with one order tensor", "the recombined stack mixes different modes"),
-    }
-    for k, (ok, detail, node) in g.facts.items():
-        title, fail = titles[k]
-        check.decide(ok, "C10-R2", title, detail, pmod.line(node), fail_detail=f"{detail}: {fail}")
-    check.floor("Gram–Schmidt facts", len(g.facts), 11)
+    gram_schmidt_rules(check, repo)
+    pmod = repo.module(PM)
 
     # ---- R3 probe normalisation algebra -----------------------------------------------------------------------------
     _, aw = repo.func(f"{PM}:ProbePixelated._apply_weights")
@@ -230,6 +209,33 @@ def _mul(e: ast.AST) -> list[ast.AST]:
         return _mul(e.left) + _mul(e.right)
     return [e]
 
+
+
+def gram_schmidt_rules(check, repo: Repo) -> None:
+    """R2 on ProbeConstraints._probe_orthogonalization_constraint (also borrowed by C02)."""
+    # ---- R2 Gram–Schmidt structure ------------------------------------------------------------------------------
+    pmod, gs = repo.func(f"{PM}:ProbeConstraints._probe_orthogonalization_constraint")
+    g = GramSchmidt(gs)  # role-based: basis list, running vector, norms and order tensors are found by definition, not by name
+    titles = {
+        "outer": ("Gram–Schmidt: the outer loop visits every mode of the input stack", "the outer loop does not run over all modes"),
+        "projection": ("Gram–Schmidt: projection = ⟨basis_j, v⟩·basis_j with the conjugate on the BASIS vector",
+                       "the inner product is not ⟨basis_j, v⟩ times the same basis vector, so modes are not mutually orthogonal for complex probes"),
+        "subtract": ("Gram–Schmidt: projections are subtracted from the running vector (modified GS)", "the running vector is not updated as v − projection"),
+        "all_previous": ("Gram–Schmidt: each vector is orthogonalised against ALL previously accepted modes", "the inner loop does not run over range(len(basis))"),
+        "normalise": ("Gram–Schmidt: the residual is normalised by its own norm before it joins the basis", "the accepted mode is not v / ‖v‖"),
+        "norms": ("Gram–Schmidt: the original per-mode norms are taken from the input stack over the last two axes", "no sqrt(Σ|input|², dim=(-2,-1)) is kept"),
+        "aligned": ("Gram–Schmidt: the original norm of the SAME index is restored (norms and stack are in one index order when multiplied)",
+                    "restoring the norms after the sort pairs mode shapes with the wrong intensities — the multiset survives but the per-mode intensity does not"),
+        "restored": ("Gram–Schmidt: the returned stack carries the restored norms", "the per-mode intensities of the input are lost"),
+        "sorted": ("Gram–Schmidt returns the stack gathered by the sort order", "the result is not sorted"),
+        "key": ("Gram–Schmidt: the sort key is the restored per-mode intensity (or the original norms), descending",
+                "sorting by another key (or ascending) leaves the modes out of descending-intensity order"),
+        "one_order": ("Gram–Schmidt: real and imaginary parts are gathered from one stack with one order tensor", "the recombined stack mixes different modes"),
+    }
+    for k, (ok, detail, node) in g.facts.items():
+        title, fail = titles[k]
+        check.decide(ok, "C10-R2", title, detail, pmod.line(node), fail_detail=f"{detail}: {fail}")
+    check.floor("Gram–Schmidt facts", len(g.facts), 11)
 
 MANIFEST = {
     "text": "Decides the admissibility structure for all raw parameter values: complex objects are clamp(|obj|, 0, 1) × exp(i·real) "
